@@ -106,9 +106,10 @@ func genW(rng *rand.Rand, size int) WScenario {
 			if sc.SubV[ci] == 5 {
 				o.RH = byte(rng.Intn(3))
 				o.RAP = rng.Intn(2) == 0
-				if rng.Intn(6) == 0 {
-					o.Share = "g"
-				}
+			}
+			// (gmqtt installs "$share/<group>/<filter>" as a shared subscription for every protocol version)
+			if rng.Intn(6) == 0 {
+				o.Share = "g"
 			}
 			if rng.Intn(6) == 0 {
 				o.Unsub = true
